@@ -19,11 +19,13 @@ SUBS = {
     "a": (5, 0, refcodec.v4("192.0.2.51", 3005)),
     "b": (5, 1, refcodec.v4("192.0.2.51", 3005)),
     "c": (6, 0, refcodec.v4("192.0.2.51", 3006)),
+    "d": (5, 0, refcodec.v4("192.0.2.51", 3099)),  # like 'a', other endpoint: a different subscription
 }
 MSGS = {
     "sub-a1": [("a", 1)], "sub-a2": [("a", 2)], "sub-ainf": [("a", INF)], "stop-a": [("a", 0)],
     "sub-b2": [("b", 2)], "stop-b": [("b", 0)], "sub-c2": [("c", 2)], "stop-c": [("c", 0)],
     "stop-a+sub-a2": [("a", 0), ("a", 2)], "sub-a2+sub-c2": [("a", 2), ("c", 2)],
+    "sub-d2": [("d", 2)], "stop-d": [("d", 0)],
 }
 
 
@@ -208,7 +210,7 @@ class Sys(e1.TimedSys):
 
     def _subkey(self, sub):
         for sk, (eg, counter, ep) in SUBS.items():
-            if sub.id == eg and sub.counter == counter:
+            if sub.id == eg and sub.counter == counter and {(o.address.packed, o.port) for o in sub.endpoints} == {(ep[1], ep[3])}:
                 return sk
         return "?"
 
@@ -306,6 +308,8 @@ def configs(ctx):
         [("C1", "sub-a2+sub-c2", "r")] + [("C2", n, e) for n in ("sub-a2", "stop-a") for e in ("n", "r")]
     out.append(("full-menu", dict(sid=sid, advs=base, menu=menu, controls=("reject", "announcer", "service", "connlost"),
                                   deviations=0, fine=1), ctx.pick(3, 5)))
+    ident = [("C1", n, "n") for n in ("sub-a2", "stop-a", "sub-d2", "stop-d", "sub-b2")]
+    out.append(("identity", dict(sid=sid, advs=(None, "next"), menu=ident, controls=(), deviations=0, fine=0), CLOSURE))
     lifecycle = [("C1", n, "n") for n in ("sub-a2", "sub-c2", "stop-a")]
     out.append(("lifecycle", dict(sid=sid, advs=base, menu=lifecycle,
                                   controls=("reject", "announcer", "service", "connlost"),
